@@ -81,6 +81,9 @@ def diff_signature(meta, ctyped, a, b, cls):
                 kind = "type:%s->%s%s" % (x[0], y[0], "" if same else "+value")
             else:
                 kind = "value:" + x[0]
+            if ctype == "object" and kind.startswith("type:int->float") and "double" in ctyped.values():
+                # the differing local is an object computed from a local that inference typed as C double
+                ctype = "object-via-double"
             return "%s@%s|ctype=%s" % (kind, base, ctype)
     if b[0] == "crash" or a[0] == "crash":
         hint = [t for t in ("chained-assign", "one-branch-assign", "closure", "swap") if t in meta["tags"]]
